@@ -302,8 +302,9 @@ func (c *cmafIngester) start(ctx context.Context) {
 	c.state = ingesterStateRunning
 
 	refRep := c.asset.refRep
+	// findLastSegNr counts from availabilityStartTime; segment numbers (MPD, URLs) include the start number
 	lastNr := findLastSegNr(c.cfg, c.asset, nowMS, refRep)
-	nextSegNr := lastNr + 1
+	nextSegNr := c.cfg.getStartNr() + lastNr + 1
 	lastSegNrToSend := -1
 
 	if c.nrSegsToSend != nil {
